@@ -19,7 +19,7 @@ SHELL = {
     'head -n 2': lambda ls: list(ls[:2]),
     'burst': lambda ls: list(ls),       # first line, a pause, then the rest: the output reaches the editor in several short reads
 }
-SIMPLE_PATS = ['a', 'o', 'foo', 'x', '^$', '^a', 'o$', 'b.r', 'zzzz', 'fo*', ' ']
+SIMPLE_PATS = ['a', 'o', 'foo', 'x', '^$', '^a', 'o$', 'b.r', 'zzzz', 'fo*', ' ', 'a/b', '/', 'o/']
 
 
 def gen_addr(R, n, want_range, allow_zero, marks):
@@ -34,7 +34,7 @@ def gen_addr(R, n, want_range, allow_zero, marks):
         if k < 0.62 and marks:
             return "'" + R.choice(marks)
         if k < 0.70:
-            return R.choice(['/', '?']).join(['', R.choice(SIMPLE_PATS), '']) if False else (lambda d: d + R.choice(SIMPLE_PATS) + d)(R.choice('/?'))
+            return R.choice(['/', '?']).join(['', R.choice(SIMPLE_PATS), '']) if False else (lambda d: d + R.choice(SIMPLE_PATS).replace(d, '\\' + d) + d)(R.choice('/?'))
         if k < 0.80:
             return R.choice(['.', '$', str(R.randint(1, max(1, n))), '']) + R.choice(['+1', '-1', '+2', '-2', '+0', '-1+2'])
         if k < 0.86:
@@ -52,6 +52,9 @@ def gen_script(R, kind):
     lines = gen.rand_buffer(R, kind, 9)
     if R.random() < 0.1:
         lines = []
+    elif lines and R.random() < 0.25:
+        k = R.randrange(len(lines))
+        lines[k] = lines[k] + R.choice([' a/b', '/', ' foo/bar'])
     cmds = []
     marks = []
     regs = []
@@ -84,7 +87,7 @@ def gen_script(R, kind):
         elif k < 0.64:
             c = 'pu'
             loc = gen_addr(R, n, False, True, marks)
-            arg = R.choice(['', '', 'a', 'b', 'z'])
+            arg = R.choice(['', '', 'a', 'b', 'z', '1', '2', '3', '3', '4', '9'])
         elif k < 0.69:
             c = 'r'
             loc = gen_addr(R, n, False, True, marks)
